@@ -14,6 +14,9 @@ WHY = {
     "C12-D": "Parser::get_spec_env works on the token vector of a concrete rule text: with the text concrete nothing is left for the solver, with it symbolic the lexer/parser do not finish; only the group-letter and optional clauses of C12 are claimed",
     "C14-B": "`$X > &` is the metathesis arm of SubRule::transform, which exhausts 14 GB under CBMC even for concrete match elements and with Word::clone stubbed; only the per-syllable mechanism of C14 is claimed",
     "C14-D": "the patch replaces apply_supras' fixed loops by loops whose bounds are computed values (min_len/max_len up to usize::MAX); every harness that reaches apply_supras then runs into the 900 s cap, so the quick check ends INCONCLUSIVE (exit 2) instead of reporting the violation -- not silent, but not a catch",
+    "C03-E": "the slip is in the six-line combinator SubRule::match_contexts_and_exceptions (before AND after of one exception alternative): it deep-clones Vec<Item> and reverses a cloned Word, both of which exhaust memory under CBMC, so the harnesses recombine the two halves themselves (stated under 'outside the claim')",
+    "C03-F": "needs a feature-matrix alternative inside a context set; the set shape with a matrix alternative ran past 25 minutes (match_modifiers over 34 slots inside the set loop), like every environment shape with a matrix element; sets of segments and `$` are decided",
+    "C04-E": "the family apply-feature-and-length was added for this change and decides exactly its scenario, but on the PATCHED tree the three harnesses that reach Syllable::apply_seg_mods with a run of copies (apply_supras first, then iter_mut().skip().take() over the grown VecDeque) do not finish inside the quick budget: the check ends INCONCLUSIVE (exit 2), not silent, not a catch",
     "C16-A": "C16 is not applicable (section 3): the trace loops cannot be driven under CBMC",
     "C16-B": "C16 is not applicable (section 3): trace_to_string renders words (lazy_static tables, String growth)",
 }
